@@ -39,6 +39,11 @@ CHECKS = {
             'websocket handshake is rejected) on every path, on both servers, and the follow-up observations of every session '
             'equal those of the run without the refused request.',
             'Trusted: CrossHair, z3, the simulated environment. One-directional ("admitted only if"): admitted requests are not judged here.', '§3 C12'),
+    'C15': (SIM + '; gateway-grammar monitors (WSGI start_response/body, ASGI http and websocket event order), status set, exception and termination-at-horizon checks over the symbolic request product, malformed bodies and API calls in every session state',
+            'For every request / API call inside the bounded product, on both gateways: exactly one well-formed response, status in '
+            '{200,400,401,405}, no escaping exception and the task finished when the kernel is quiescent at now+ping_interval+ping_timeout+1.',
+            'Trusted: CrossHair, z3, the simulated environment (termination is judged on the virtual clock under cooperative scheduling). '
+            'Known finding F6 (close(wait=True) never returns for sessions not on WebSocket) is waived for the listed state classes only.', '§3 C15'),
 }
 
 NOT_BUILT = 'check not built yet in this round (see DESIGN.md §8 build order); not claimed until it runs'
